@@ -46,6 +46,14 @@ func (h *simHook) Unlocked(m unsafe.Pointer) {
 }
 
 //go:norace
+func (h *simHook) TryLock(m unsafe.Pointer, name string, shared bool, try func() bool) bool {
+	if !h.s.Active() {
+		return try()
+	}
+	return h.s.TryLock(uintptr(m), name, shared, try)
+}
+
+//go:norace
 func (h *simHook) RLock(m unsafe.Pointer, name string, try func() bool) {
 	if !h.s.Active() {
 		for !try() {
